@@ -49,7 +49,7 @@ var Texts = []string{"BL", "1.2.3", "sha-256", "TF-M_SHA256MemPreXIP", "ünïcö
 	// text that equals a member name / a profile name
 	"psa-profile", "eat-profile", "psa-nonce", "PSA_IOT_PROFILE_1", "http://arm.com/psa/2.0.0", "null", "true", "{}", "[]",
 	// names an implementation might be tempted to normalise, things that are not URIs, surrounding white space, trailing NUL
-	"SHA256", "SHA_384", "sha512", "192.0.2.1:8443", "100%", "a b#c%zz", ":", " padded ", "trailing-nul\x00", "\u00a0", "\t"}
+	"SHA256", "SHA_384", "sha512", "192.0.2.1:8443", "100%", "a b#c%zz", ":", " padded ", "trailing-nul\x00", "\u00a0", "\t", "\ufffd", "a\ufffdb", "\ufeff"}
 
 // LongTexts: strings whose length in octets and in characters differ widely
 // and straddle 64 / 255 / 256 (code that measures one and cuts by the other
@@ -142,6 +142,19 @@ func (g *Gen) Valid(p int) *Claims {
 	a.Comps = nil
 	for i := 0; i < n; i++ {
 		a.Comps = append(a.Comps, g.ValidComp())
+	}
+	// one set in eight lists the SAME component more than once (the object
+	// builders then put the same pointer into the list): [c0, c0, ...] or
+	// [c0, ..., c0] followed by another one
+	if g.R.Intn(8) == 0 {
+		if g.R.Intn(2) == 0 {
+			a.Comps = append([]Comp{a.Comps[0]}, a.Comps...)
+		} else {
+			a.Comps = append(a.Comps, a.Comps[0])
+		}
+		if g.R.Intn(2) == 0 {
+			a.Comps = append(a.Comps, g.ValidComp())
+		}
 	}
 	if p == 1 {
 		if g.R.Intn(3) == 0 {
